@@ -23,6 +23,7 @@ RULE = (
     "exclude-Any never turns a rejection into an acceptance; same verdict on a fresh and a used Checker; "
     "`y: A = b` (b: B) diagnosed consistently with soundness. Non-trivial = accepted pair with A != B and "
     "neither side object/Never, or a rejected one-leaf near-miss (distinct by recipe pair)."
+    ' A history mode asks, for each of 14 expected types (protocols incl. the generic structural Pops[T], abstract containers, TypedDict, Callable), every universe object as a literal on three Checkers in three different orders; the verdict for a pair must not depend on the order.'
 )
 ASSUMPTIONS = [
     "inclusion B <= A is decided on witnesses only (under-approximation of semantic subtyping); Unknown membership is skipped",
